@@ -203,6 +203,9 @@ func DrawBundle(c *core.Ctx, maxEx int, withSigs bool) *LBundle {
 	if lb.Version == "b1" {
 		// writer precondition: b1 always carries a primary URL in its header
 		lb.Primary = DrawURL(c, "bundle.primary", 9000, false, "")
+		if c.Chance("bundle.shortPrimary", 1, 4) {
+			lb.Primary = c.PickStr("bundle.shortPrimaryURL", "https://a.b/", "http://x/", "https://a.bc/d", "h:/")
+		}
 		if c.Bool("bundle.manifest") {
 			lb.Manifest = DrawURL(c, "bundle.manifestURL", 9001, false, "")
 		}
